@@ -22,7 +22,7 @@ func globalInit(st *State, g *ssa.Global, o *Object) {
 	case "github.com/IrineSistiana/mosdns/v5/pkg/pool.ReleaseBuf":
 		o.V = FuncV{Native: "pool.ReleaseBuf"}
 	case "context.closedchan":
-		c := st.newChan(0, nil)
+		c := st.newChan(0, types.NewStruct(nil, nil))
 		c.closed = true
 		o.V = ChanV{C: c}
 	case "net/netip.z4", "net/netip.z6noz":
